@@ -44,6 +44,8 @@ pub struct Model {
     pub known_users: BTreeSet<String>,
     /// LST minted for native-chain recipients (sum of minted amounts per recipient)
     pub lst_owed_native: BTreeMap<String, u128>,
+    /// oracle address of the last accepted protocol section (None = never updated)
+    pub intended_oracle: Option<Option<String>>,
     /// set once the totals became unobservable; the flow bookkeeping is then incomplete for good
     pub unknown: bool,
 }
@@ -837,8 +839,18 @@ impl Model {
             let posts: Vec<(String, String, String, String)> = res.events.iter().filter_map(|e| if let Ev::Oracle { oracle, denom, purchase, redemption, .. } = e { Some((oracle.clone(), denom.clone(), purchase.clone(), redemption.clone())) } else { None }).collect();
             let changed = pre.n != post.n || pre.l != post.l;
             let (red, pur) = if post.l == 0 { (Some("0".to_string()), Some("0".to_string())) } else { (prim::dec18_ratio(post.n, post.l), prim::dec18_ratio(post.l, post.n)) };
-            if res.ok && matches!(op, Op::Exec { contract, .. } | Op::Hook { contract, .. } if contract == q) {
-                match pre.oracle() {
+            if res.ok && kind == "update_config" {
+                if let Some(p) = msg.get("update_config").and_then(|u| u.get("protocol_chain_config")) {
+                    if !p.is_null() {
+                        self.intended_oracle = Some(p.get("oracle_address").and_then(|x| x.as_str()).map(|x| x.to_string()));
+                        if post.oracle() != self.intended_oracle.clone().unwrap() {
+                            v.push(Viol { prop: "C15", what: format!("the accepted protocol section sets the oracle to {:?} but the contract keeps {:?}", self.intended_oracle.clone().unwrap(), post.oracle()) });
+                        }
+                    }
+                }
+            }
+            if res.ok && matches!(op, Op::Exec { contract, .. } | Op::Hook { contract, .. } if contract == q) && kind != "update_config" {
+                match self.intended_oracle.clone().unwrap_or_else(|| pre.oracle()) {
                     Some(o) => {
                         if changed {
                             if posts.len() != 1 {
